@@ -64,7 +64,7 @@ TRUSTED_BRIDGE = [
 
 ALGOS = ["exh", "lca", "thl", "base_spfs", "ext_spfs", "base_uspfs", "superdtl"]
 KIND = solvers.MODE
-SAFE_WORD = re.compile(r"[A-Za-z0-9_]+\Z")
+SAFE_WORD = re.compile(r"[A-Za-z0-9_.\-]+\Z")
 COST_NAMES = {"spe": "SPECIATION", "dup": "DUPLICATION", "hgt": "HORIZONTAL_TRANSFER", "floss": "FULL_LOSS",
               "sloss": "SEGMENTAL_LOSS"}
 P_COLOUR = 0.12
